@@ -788,6 +788,25 @@ async fn exec(cx: &mut Cx<'_>, st: &Step) {
                 },
             );
         }
+        Step::StopCancel { slot, ms: after } => {
+            let r = match resolve(cx, *slot) {
+                Got::Local(H::Strong(r)) => Some(r.clone()),
+                Got::Temp(H::Strong(r)) => Some(r),
+                _ => None,
+            };
+            let (op, raw) = op_start(OpK::Stop, r.as_ref().map(|r| r.identity()), None, *slot, "cancellable");
+            msched::register_deadline(*after as u64);
+            let res = match r {
+                Some(r) => match tokio::time::timeout(ms(*after), r.stop()).await {
+                    Ok(Ok(())) => Res::Ok,
+                    Ok(Err(e)) => err_res(&e, raw),
+                    // the caller gave up: the stop future was dropped before it completed
+                    Err(_) => Res::Upgraded(false),
+                },
+                None => Res::NoHandle,
+            };
+            op_end(op, res);
+        }
         Step::Kill(slot) => {
             let got = resolve(cx, *slot);
             let tmp;
